@@ -569,4 +569,63 @@ theorem parseMime_stage_cases (cfg : Cfg) (S : State) (hs : S.stage = .mime) :
   obtain ⟨S1, ok1⟩ := g
   cases ok1 <;> exact key
 
+/-- the syntax-error verdict ends the parse -/
+theorem parseFirst_invalid_done {cfg : Cfg} {x : Bytes} {S' : State} {ok : Bool}
+    (h : parseFirst cfg (fresh x) = (S', ok)) (hl : S'.parseStatus = scInvalidHeader) : S'.stage = .done := by
+  unfold parseFirst at h
+  have hst : (fresh x).stage = .first := rfl
+  simp only [hst, ↓reduceIte] at h
+  generalize hf : firstLine cfg (fresh x) = fl at h
+  obtain ⟨S1, rc⟩ := fl
+  have hfr := firstLine_frame hf
+  have hps : S1.parseStatus = scNone := by rw [hfr.2.2]; rfl
+  simp only at h
+  split at h
+  · injection h with h1 h2; subst h1; rfl
+  · exfalso
+    generalize hS2 : (if (decide (rc > 0) && decide (S1.stage = Stage.first)) = true then { S1 with stage := Stage.mime } else S1) = S2 at h
+    have hps2 : S2.parseStatus = scNone := by
+      rw [← hS2]; split <;> exact hps
+    unfold parseMime at h
+    split at h
+    · rename_i hm
+      have hc := (parseMime_stage_cases cfg S2 hm).2.1
+      unfold parseMime at hc
+      simp only [hm, ↓reduceIte] at hc
+      generalize hg : grabMimeBlock cfg S2 = g at h hc
+      obtain ⟨S3, ok3⟩ := g
+      have hS3 : S3 = S' := by cases ok3 <;> (simp only at h; injection h)
+      subst hS3
+      have hc' : S3.parseStatus = S2.parseStatus ∨ S3.parseStatus = scHeaderTooLarge := by
+        cases ok3 <;> exact hc
+      rw [hl, hps2] at hc'
+      rcases hc' with h1 | h1 <;> exact absurd h1 (by decide)
+    · injection h with h1 h2; subst h1
+      rw [hl] at hps2; exact absurd hps2 (by decide)
+
+/-- no false rejects: while the bytes received so far can still be completed to an input that starts with a status line,
+    the parser does not report a syntax error -/
+theorem viable_prefix_not_rejected {cfg : Cfg} {line : Bytes} {f : Fields} (h : StatusLine cfg.relaxed line f)
+    (x b rest : Bytes) (hxb : x ++ b = line ++ rest) : (oneShot cfg x).st.parseStatus ≠ scInvalidHeader := by
+  intro hbad
+  have hx : x ≠ [] := by
+    intro hx; subst hx; rw [oneShot_nil] at hbad; exact absurd hbad (by decide)
+  have hstep := feedStep_oneShot (cfg := cfg) x b (by rw [hbad]; decide)
+  have hdone : (oneShot cfg x).st.stage = .done := by
+    rw [oneShot_ne hx] at hbad ⊢
+    generalize hp : parseFirst cfg (fresh x) = p at hbad
+    obtain ⟨S', ok⟩ := p
+    exact parseFirst_invalid_done hp hbad
+  have hkeep : (feedStep cfg (oneShot cfg x) b).st.parseStatus = scInvalidHeader := by
+    unfold feedStep
+    simp only [hdone, ↓reduceIte]
+    exact hbad
+  rw [hstep, hxb] at hkeep
+  have hacc : (oneShot cfg (line ++ rest)).st.parseStatus = scNone ∨ (oneShot cfg (line ++ rest)).st.parseStatus = scHeaderTooLarge := by
+    rw [oneShot_status_line h rest]
+    have hs := parseMime_stage_cases cfg { accepted f rest with stage := .mime } rfl
+    exact hs.2.1
+  rw [hkeep] at hacc
+  rcases hacc with h1 | h1 <;> exact absurd h1 (by decide)
+
 end SquidModel.Http1Resp
